@@ -839,6 +839,10 @@ class Emitter:
                 return f"(Transc.powi {rs} {a})", "f"
             if rt == "f" and name == "recip":
                 return f"(((1 : Nat) : α) / {rs})", "f"
+            if rt == "f" and name == "clamp" and len(args) == 2:
+                a, _ = self.expr(args[0], env)
+                b, _ = self.expr(args[1], env)
+                return f"(fclamp {rs} {a} {b})", "f"
             if rt == "f" and name == "is_finite":
                 return f"(Transc.isFinite {rs})", "b"
             if rt == "n" and name == "saturating_sub":
@@ -974,6 +978,21 @@ class Emitter:
                     if e[3] is not None:
                         lines.append(f"{pad}else")
                         lines += self.stmts(e[3], dict_passthrough(env), ind + 1, ret_self, ret_ty, tail=False) or [pad + "  pure ()"]
+                    continue
+                if e[0] == "iflet":
+                    # `if let PAT = SCRUT { .. } [else { .. }]` in statement position: a two-armed match
+                    sc, sct = self.expr(e[2], env)
+                    ps, penv = self.pat(e[1], sct)
+                    lines.append(f"{pad}match {sc} with")
+                    lines.append(f"{pad}| {ps} =>")
+                    benv = dict_passthrough(env)
+                    benv.update(penv)
+                    lines += self.stmts(e[3], benv, ind + 2, ret_self, ret_ty, tail=False) or [pad + "    pure ()"]
+                    lines.append(f"{pad}| _ =>")
+                    if e[4] is not None:
+                        lines += self.stmts(e[4], dict_passthrough(env), ind + 2, ret_self, ret_ty, tail=False) or [pad + "    pure ()"]
+                    else:
+                        lines.append(pad + "    pure ()")
                     continue
                 if e[0] == "match":
                     sc, sct = self.expr(e[1], env)
